@@ -99,7 +99,27 @@ def encode(lines, big_endian):
     return bytes(out)
 
 
-def render(lines, tbl, listo):
+def spec_request(lines, dialect_idx, listo):
+    """the program in the line protocol of the driver's `spec basic` request (Beeb.Spec.BasicProg)"""
+    def item(i):
+        k, a = i.kind, i.a
+        return {'lit': lambda: 'l%d' % a[0], 'tok': lambda: 't%d' % a[0], 'ext': lambda: 'e%d.%d' % (a[0], a[1]), 'pdpquit': lambda: 'q',
+                'pdpload': lambda: 'o', 'ref': lambda: 'r%d' % a[0], 'str': lambda: 's%s.%d' % (a[0].hex() or '-', 1 if a[1] else 0)}[k]()
+    prog = ';'.join('%d:%s' % (l.num, ','.join(item(i) for i in l.items)) for l in lines) or '-'
+    return 'basic %d %d %s' % (dialect_idx, listo, prog)
+
+
+def render(lines, tbl, listo, dialect_idx=None):
+    """the documented listing; with `dialect_idx` the result (and both encodings) is also queued for comparison
+    with the Lean spec (Spec.render over the *documented* token tables, Spec.encodeBE / encodeLE)"""
+    out = render_(lines, tbl, listo)
+    if dialect_idx is not None:
+        import vlib
+        vlib.spec_tie(spec_request(lines, dialect_idx, listo), '%s %s %s' % (vlib.hexs(encode(lines, True)), vlib.hexs(encode(lines, False)), vlib.hexs(out)))
+    return out
+
+
+def render_(lines, tbl, listo):
     out = bytearray()
     indent = 0
     for l in lines:
